@@ -229,6 +229,23 @@ func jobsFor(prop, tier string) []*Job {
 				add("lists/"+tn(t), "ZZ_C05_lists", []string{"lists"}, t, n)
 			}
 		}
+		// valid frames with many list elements under budgets linear in the
+		// frame length: quadratic decoding shows here
+		for t := 1; t <= 15; t++ {
+			if t == 12 || t == 13 {
+				continue
+			}
+			for _, n := range []int{8, 24, 48} {
+				if n == 48 && !thorough {
+					continue
+				}
+				sh := Sh{Typ: t, Slen: 1, NUser: n, NList: n * b2i(hasList(t) || t == 3), Nz: 3}
+				if t == 1 {
+					sh.Will = 1
+				}
+				add("many/"+tn(t), "ZZ_C05_many", []string{"many"}, sh.Args()...)
+			}
+		}
 	case "C06":
 		for n := 0; n <= nmax(0, 5, 7); n++ {
 			add("one/A", "ZZ_C06_amode", []string{"one"}, n)
@@ -332,12 +349,20 @@ func jobsFor(prop, tier string) []*Job {
 					continue
 				}
 				for mode := 0; mode <= 2; mode++ {
-					if mode == 2 && (sh.Flen > 0 || sh.Big > 0) {
+					if mode == 2 && (sh.Flen > 0 || sh.Big > 0 || sh.Slen > 100) {
 						continue // one path per accepted count: small frames only
 					}
 					add("write/"+tn(t), "ZZ_C10_write", []string{"write"}, append([]int{mode}, sh.Args()...)...)
 				}
 			}
+		}
+		// large payloads (second Write, chunked writes ...): short writes at
+		// concrete positions in and after the header
+		for _, big := range []int{5000, 70000} {
+			sh := Sh{Typ: 3, Slen: 1, Nz: 2, Big: big, Qos: 1}
+			add("bigwrite/Publish", "ZZ_C10_bigwrite", []string{"bigwrite"}, sh.Args()...)
+			shc := Sh{Typ: 1, Slen: 1, Nz: 2, Will: 1, Big: big}
+			add("bigwrite/Connect", "ZZ_C10_bigwrite", []string{"bigwrite"}, shc.Args()...)
 		}
 		// write, modify, write again
 		for t := 1; t <= 15; t++ {
@@ -479,6 +504,14 @@ func jobsFor(prop, tier string) []*Job {
 					continue
 				}
 				add("after/"+tn(t), "ZZ_C14_after", []string{"after"}, t, n)
+			}
+		}
+		// packets kept across later ReadPacket calls on the same stream
+		for t := 1; t <= 15; t++ {
+			for _, sh := range smallWireShapes(t, thorough) {
+				for n := 1; n <= nmax(t, 3, 5); n++ {
+					add("kept/"+tn(t), "ZZ_C14_kept", []string{"kept"}, append([]int{n}, sh.Args()...)...)
+				}
 			}
 		}
 	case "C15":
